@@ -70,7 +70,7 @@ var extCode = map[string]uint16{
 var sniName = map[string]string{
 	"pub": "Public-k.Example.COM", "pubKelvin": "Public-\u212a.Example.COM", "priv": "Private.Example.COM", "other": "other.example.net", "pubB": "public-b.example.org", "": "",
 }
-var alpnList = map[string][]string{"ao": {"http/1.1"}, "ai": {"h2", "http/1.1"}, "": nil}
+var alpnList = map[string][]string{"ao": {"http/1.1"}, "ai": {"h3", "h2", "http/1.1"}, "": nil}
 
 func be16(b []byte, v int) []byte { return binary.BigEndian.AppendUint16(b, uint16(v)) }
 
@@ -138,10 +138,11 @@ func encALPN(ps []string) []byte {
 
 // stretch controls the size of opaque extension bodies (the abstract case does not change).
 type encOpts struct {
-	stretch int // extra bytes in opaque bodies
-	padLen  int
-	padPos  int // position of the non-zero byte for pad = "nonzero"
-	fillTo  int // > 0: an outer-only padding extension brings the outer ClientHello message (handshake header included) to exactly this size
+	stretch  int // extra bytes in opaque bodies
+	padLen   int
+	padPos   int // position of the non-zero byte for pad = "nonzero"
+	innerVer int // != 0: legacy_version of the inner hello (the outer one keeps 0x0303)
+	fillTo   int // > 0: an outer-only padding extension brings the outer ClientHello message (handshake header included) to exactly this size
 }
 
 func opaqueVal(v string, o encOpts) []byte {
@@ -386,6 +387,9 @@ func sidBytes(s string) []byte {
 // (nil = compute by sealing). zeroPayloadLen >= 0 forces a zero payload of that length (AAD form).
 func (s *sealer) helloBody(h *aHello, random byte, o encOpts, op string, zeroPayloadLen int) []byte {
 	b := []byte{3, 3}
+	if o.innerVer != 0 && h.Ech.Type == "inner" {
+		b = []byte{byte(o.innerVer >> 8), byte(o.innerVer)}
+	}
 	b = append(b, bytes.Repeat([]byte{random}, 32)...)
 	b = vec8(b, sidBytes(h.Sid))
 	b = vec16(b, []byte{0x13, 0x01, 0x13, 0x02, 0x13, 0x03})
